@@ -20,7 +20,7 @@ step "patched build"; build; build_rc=$?
 if [ $build_rc -ne 0 ]; then git checkout -q -- .; echo "CONFIRM $SD: patched tree does not build"; exit 2; fi
 step "demo build (patched)"; bash -c "$demo_build" >>"$log" 2>&1
 step "demo run (patched)"; timeout 600 bash -c "$demo_run" >>"$log" 2>&1; patched_rc=$?
-step "ctest (patched)"; ctest --test-dir $BD -j6 --timeout 1500 >"$SD/confirm.ctest.log" 2>&1; ctest_rc=$?
+step "ctest (patched)"; rm -f $BD/Addons/checkpoint $BD/Addons/checkpoint_old; ctest --test-dir $BD -j6 --timeout 1500 >"$SD/confirm.ctest.log" 2>&1; ctest_rc=$?
 passed=$(grep -c "Passed" "$SD/confirm.ctest.log")
 git checkout -q -- .
 step "restore build"; build
